@@ -104,7 +104,8 @@ type Sched struct {
 	// returns true if the execution can be abandoned.
 	pruneFn func(idx int, fp uint64, cost int) bool
 
-	fpNoCur bool // unbounded search: who is running does not matter
+	strictDev bool // every departure from the default schedule costs 1
+	fpNoCur   bool // unbounded search: who is running does not matter
 
 	hooks []func() // per-execution reset hooks registered by shims
 }
@@ -114,6 +115,11 @@ var S = &Sched{}
 // FingerprintIgnoresRunning is set by the explorer for unbounded searches,
 // where the identity of the running goroutine has no influence on the future.
 var FingerprintIgnoresRunning bool
+
+// StrictDeviations makes every scheduling alternative other than the default
+// one (keep running; else lowest id) cost one deviation, also at points where
+// the running goroutine blocked.  Bound 0 is then exactly one schedule.
+var StrictDeviations bool
 
 // Active reports whether a controlled execution is in progress.
 func Active() bool { return S.active }
@@ -354,7 +360,7 @@ func (s *Sched) schedule(self *G) {
 			return
 		}
 		cost := 0
-		if curEnabled {
+		if curEnabled || s.strictDev {
 			cost = 1
 		}
 		c := 0
@@ -467,6 +473,7 @@ func OnReset(f func()) { S.hooks = append(S.hooks, f) }
 
 // Result describes one finished execution.
 type Result struct {
+	EndFP    uint64 // fingerprint of the final state
 	Status   Status
 	PanicMsg string
 	PanicStk string
@@ -525,6 +532,7 @@ func RunOnce(main func(), prefix []int, maxSteps int, prune func(idx int, fp uin
 	s.chans = make(map[uintptr]*chanState)
 	s.pruneFn = prune
 	s.fpNoCur = FingerprintIgnoresRunning
+	s.strictDev = StrictDeviations
 	for _, h := range s.hooks {
 		h()
 	}
@@ -537,7 +545,8 @@ func RunOnce(main func(), prefix []int, maxSteps int, prune func(idx int, fp uin
 	g0.wake <- struct{}{}
 	<-s.endCh
 
-	res := &Result{Status: s.status, PanicMsg: s.panicMsg, PanicStk: s.panicStk, ExitCode: s.exitCode,
+	endFP := s.fingerprint()
+	res := &Result{EndFP: endFP, Status: s.status, PanicMsg: s.panicMsg, PanicStk: s.panicStk, ExitCode: s.exitCode,
 		Obs: s.obs, Trace: s.trace, EndTime: s.now, Steps: s.steps}
 	for _, g := range s.gs {
 		if !g.done && g.pend != nil {
